@@ -125,6 +125,13 @@ def cases(tier, seed):
             for bi in range(2):
                 for pad in (2, 3):
                     out.append({"key": f"midcycle/u={ui}/s={si}/b={bi}/pad={pad}", "cls": "midcycle", "n": 2 + pad, "scale": 1.0, "u": ui, "s": list(sv_), "b": bi, "pad": pad})
+    # fault injection on the path the property names ("lucky breakdown at any Arnoldi step"): the Arnoldi remainder norm of exactly one
+    # (cycle m, step j) is replaced by 0 although the Krylov space is NOT invariant; every position is enumerated.  Whatever the solver
+    # then returns, the record must tell the truth about it.
+    for n in (3, 4, 5, 6):
+        for m_ in range(1, n + 1):
+            for j_ in range(m_):
+                out.append({"key": f"fault/breakdown/n={n}/m={m_}/j={j_}", "cls": "fault", "n": n, "scale": 1.0, "m_": m_, "j_": j_})
     # ill-conditioned systems (cond 1e7..1e10): only the truthfulness of info.residual is decided there, against an
     # extended-precision (80-bit) evaluation of ||Ax-b||/||b||
     for n in (4, 6, 9):
@@ -298,9 +305,66 @@ def run_illcond(case, seed):
             "path": "illcond", "obs": [len(fails)]}
 
 
+def run_fault(case, seed):
+    import sys as _sys
+
+    lib = load()
+    sv = lib.solver
+    S = sv.QGMRESSolver
+    n = case["n"]
+    fill = G.Fill(seed, stream=hash_tag(f"fault/{n}"))
+    A = fill.quat(n, n, bits=4, lo=-32, hi=32) + 3.0 * O.qeye(n)
+    b = fill.quat(n, 1, bits=3, lo=-16, hi=16)
+    if not b.any():
+        b[0, 0, 0] = 1.0
+    Aq, bq = G.to_quat(A), G.to_quat(b)
+    nb = O.fro(b)
+    orig = sv.normQsparse
+    hit = {"n": 0}
+
+    def faulty(*a, **k):
+        fr = _sys._getframe(1)
+        loc = fr.f_locals
+        # the Arnoldi remainder norm: called from _GMRESQsparse on its local vector v_0 inside the step loop
+        if fr.f_code.co_name == "_GMRESQsparse" and a and a[0] is loc.get("v_0") and loc.get("m") == case["m_"] and loc.get("j") == case["j_"]:
+            hit["n"] += 1
+            return 0.0
+        return orig(*a, **k)
+
+    fails = []
+    tags = {"cls": "fault", "n": n, "m": case["m_"], "j": case["j_"]}
+    sv.normQsparse = faulty
+    try:
+        ok, res = call(S(tol=1e-10).solve, Aq, bq)
+    finally:
+        sv.normQsparse = orig
+    path = "fault_not_reached"
+    if hit["n"]:
+        path = "fault_injected:" + ("raised" if not ok else "returned")
+        if ok:
+            x = G.from_quat(res[0]).reshape(n, 1, 4)
+            info = res[1]
+            if O.is_finite(x):
+                tr = O.fro(O.qmatmul(A, x) - b) / nb
+                rep = info.get("residual")
+                if rep is None or not np.isfinite(rep) or abs(rep - tr) > 1e-9 * max(tr, 1e-300) + 1e-13:
+                    fails.append(fail("info.residual_truthful", f"after an injected breakdown at cycle {case['m_']} step {case['j_']}: info.residual = {rep!r}, ||Ax-b||/||b|| = {tr!r}", **tags))
+                if info.get("converged") and tr > 1e-8:
+                    fails.append(fail("converged=>small_residual", f"after an injected breakdown at cycle {case['m_']} step {case['j_']}: converged=True with true residual {tr:.3e}", **tags))
+                hx = [h[2] for h in (info.get("residual_history") or [])]
+                if hx and abs(hx[-1] - tr) > 1e-9 * max(tr, 1e-300) + 1e-12:
+                    fails.append(fail("history_last=true_residual", f"after an injected breakdown: history[-1] = {hx[-1]!r}, true residual {tr!r}", **tags))
+            elif info.get("converged"):
+                fails.append(fail("converged=>small_residual", "converged=True with a non-finite solution after an injected breakdown", **tags))
+    return {"key": case["key"], "fails": fails, "nontrivial": bool(hit["n"]), "digest": digest(A, b, case["m_"], case["j_"]), "states": [path], "transitions": 1, "traces": 0 if fails else 1,
+            "path": path, "obs": [len(fails), path]}
+
+
 def run_case(case, seed):
     if case["cls"] == "illcond":
         return run_illcond(case, seed)
+    if case["cls"] == "fault":
+        return run_fault(case, seed)
     lib = load()
     S = lib.solver.QGMRESSolver
     A, bs = build(case, seed)
@@ -445,4 +509,9 @@ def summarize(results):
         for tok in p.split(";"):
             if tok.startswith("breakdown"):
                 pos[tok] = pos.get(tok, 0) + 1
-    return {"breakdown_positions_reached": dict(sorted(pos.items())), "zero_pivot_preconditioner_fallback": "unreachable_in_domain"}
+    fi = {}
+    for r in results:
+        p_ = r.get("path") or ""
+        if p_.startswith("fault_"):
+            fi[p_] = fi.get(p_, 0) + 1
+    return {"breakdown_positions_reached": dict(sorted(pos.items())), "zero_pivot_preconditioner_fallback": "unreachable_in_domain", "injected_breakdown_positions": fi}
